@@ -23,7 +23,7 @@ LABEL_OPTS = ["gf", "gf_terminals", "mark_heads_marking", "boyd_split_marking", 
 
 def mk_tree(rng, cont=False):
     cfg = treegen.Cfg(n_min=1, n_max=9, disc=not cont, p_disc=0.4, p_unary=0.2, p_punct=0.2, words=WORDS,
-                      labels=treegen.LABELS + ["N&P", "A<B", "Q\"L"], edges=treegen.EDGES + ["S&B", "-"])
+                      labels=treegen.LABELS + ["N&P", "A<B", "Q\"L", "X&lt;", "&amp;P"], edges=treegen.EDGES + ["S&B", "-", "&gt;"])
     t = treegen.gen_tree(rng, cfg)
     t.data['sid'] = rng.randint(1, 999)
     if rng.random() < 0.3:
